@@ -367,6 +367,46 @@ def check_grid(ctx, eng, w, h, d, per, do_engine=True, do_kin=True, tag=""):
                               % (acc, form, v, w, h, d, r), dict(case, accessor=acc), impl=repr(r), expected="exception")
                 ctx.count("accessor_outside_accepted")
 
+    # ------------------------------------------------------------------ A'. non-integer coordinates: truncated PER COORDINATE
+    # (the code applies int() to each coordinate): a position whose coordinates have their integer parts inside the grid
+    # names the cell of those integer parts, through every accessor
+    fr = [0.5, 0.25, 0.75]
+    for i in range(n):
+        c = cells[i]
+        fc = (c[0] + fr[i % 3], c[1] + fr[(i + 1) % 3], c[2] + fr[(i + 2) % 3])
+        for form in (("tuple", "obj") if i % 2 == 0 else ("list", "nd", "npfloat")):
+            if form == "tuple":
+                rp = tuple(fc)
+            elif form == "list":
+                rp = list(fc)
+            elif form == "nd":
+                rp = np.array(fc)
+            elif form == "npfloat":
+                rp = (np.float64(fc[0]), np.float32(fc[1]), fc[2])
+            else:
+                rp = P(*fc)
+            case = grid_case(w, h, d, per, kind="position", form=form + "-fractional", value=list(fc))
+            ctx.case(("frac", dims, per, i, form), nontrivial=nontriv)
+            ctx.count("pos_fractional")
+            wb, e0 = call(g_env.is_within_bounds, rp)
+            idx, e1 = call(g_env.get_cell_index, rp)
+            env, e2 = call(g_env.get_cell_env, rp)
+            nb, e3 = call(g_env.get_neighbors, rp)
+            nb_ref, _ = call(g_env.get_neighbors, i)
+            j = (i + 1) % n
+            an, e4 = call(g_env.are_neighbors, rp, j)
+            an_ref, _ = call(g_env.are_neighbors, i, j)
+            got = {"is_within_bounds": wb if e0 is None else e0, "get_cell_index": idx if e1 is None else e1,
+                   "get_cell_env": (int(env) if e2 is None else e2), "get_neighbors": ([int(x) for x in nb] if e3 is None else e3),
+                   "are_neighbors(.,%d)" % j: (bool(an) if e4 is None else e4)}
+            want = {"is_within_bounds": True, "get_cell_index": i, "get_cell_env": genv[i],
+                    "get_neighbors": [int(x) for x in nb_ref] if nb_ref is not None else None, "are_neighbors(.,%d)" % j: bool(an_ref)}
+            if got != want:
+                bad = sorted(k for k in want if got[k] != want[k])
+                ctx.violation("index:fractional", "position %r (%s) on %dx%dx%d %s: %s = %r, the cell of the truncated coordinates %r is %d (%s expected %r)"
+                              % (list(fc), form, w, h, d, pkey, bad[0], got[bad[0]], list(c), i, bad[0], want[bad[0]]),
+                              case, impl={k: repr(v) for k, v in got.items()}, expected={k: repr(v) for k, v in want.items()})
+
     # ------------------------------------------------------------------ B. are_neighbors, all ordered pairs
     are = [[None] * n for _ in range(n)]
     for i in range(n):
